@@ -585,9 +585,11 @@ impl SequenceMatcher {
                 // This maintains the two-pointer invariant (b_ptr points to the last B that could match)
                 b_ptr = latest_b_ptr;
             } else {
-                // B is not before A (ts_b >= ts_a), advance b_ptr to find earlier B events
-                // Since indices are sorted by timestamp, we need to advance b_ptr
-                b_ptr += 1;
+                // B is not before A (ts_b >= ts_a). The B list is ascending and every B
+                // before b_ptr was already earlier than the previous A, so no B precedes this A:
+                // move on to the next A (advancing b_ptr would only reach later Bs and end the
+                // sweep without looking at the remaining A events).
+                a_ptr += 1;
             }
         }
 
